@@ -738,7 +738,7 @@ DLLIMPORT int cfg_parse_boolean(const char *s)
 	return CFG_FAIL;
 }
 
-static void cfg_init_defaults(cfg_t *cfg)
+static int cfg_init_defaults(cfg_t *cfg)
 {
 	int i;
 
@@ -830,19 +830,23 @@ static void cfg_init_defaults(cfg_t *cfg)
 			} else {
 				switch (cfg->opts[i].type) {
 				case CFGT_INT:
-					cfg_opt_setnint(&cfg->opts[i], cfg->opts[i].def.number, 0);
+					if (cfg_opt_setnint(&cfg->opts[i], cfg->opts[i].def.number, 0) != CFG_SUCCESS)
+						return CFG_FAIL;
 					break;
 
 				case CFGT_FLOAT:
-					cfg_opt_setnfloat(&cfg->opts[i], cfg->opts[i].def.fpnumber, 0);
+					if (cfg_opt_setnfloat(&cfg->opts[i], cfg->opts[i].def.fpnumber, 0) != CFG_SUCCESS)
+						return CFG_FAIL;
 					break;
 
 				case CFGT_BOOL:
-					cfg_opt_setnbool(&cfg->opts[i], cfg->opts[i].def.boolean, 0);
+					if (cfg_opt_setnbool(&cfg->opts[i], cfg->opts[i].def.boolean, 0) != CFG_SUCCESS)
+						return CFG_FAIL;
 					break;
 
 				case CFGT_STR:
-					cfg_opt_setnstr(&cfg->opts[i], cfg->opts[i].def.string, 0);
+					if (cfg_opt_setnstr(&cfg->opts[i], cfg->opts[i].def.string, 0) != CFG_SUCCESS)
+						return CFG_FAIL;
 					break;
 
 				case CFGT_FUNC:
@@ -863,10 +867,13 @@ static void cfg_init_defaults(cfg_t *cfg)
 			cfg->opts[i].flags |= CFGF_RESET;
 			cfg->opts[i].flags &= ~CFGF_MODIFIED;
 		} else if (!is_set(CFGF_MULTI, cfg->opts[i].flags)) {
-			cfg_setopt(cfg, &cfg->opts[i], NULL);
+			if (!cfg_setopt(cfg, &cfg->opts[i], NULL))
+				return CFG_FAIL;
 			cfg->opts[i].flags |= CFGF_DEFINIT;
 		}
 	}
+
+	return CFG_SUCCESS;
 }
 
 static cfg_value_t *cfg_setopt_value(cfg_t *cfg, cfg_opt_t *opt, const char *value);
@@ -1126,15 +1133,17 @@ static cfg_value_t *cfg_setopt_value(cfg_t *cfg, cfg_opt_t *opt, const char *val
 				return NULL;
 			}
 
+			/* defaults are for a new section, not for one that is re-opened */
+			if (!is_set(CFGF_DEFINIT, opt->flags) && cfg_init_defaults(sec) != CFG_SUCCESS) {
+				cfg_free_ctx(sec);
+				return NULL;
+			}
+
 			if (val->section) {
 				val->section->path = NULL; /* Global search path */
 				cfg_free_ctx(val->section);
 			}
 			val->section = sec;
-
-			/* defaults are for a new section, not for one that is re-opened */
-			if (!is_set(CFGF_DEFINIT, opt->flags))
-				cfg_init_defaults(val->section);
 		}
 		break;
 
@@ -1963,7 +1972,10 @@ DLLIMPORT cfg_t *cfg_init(cfg_opt_t *opts, cfg_flag_t flags)
 	bindtextdomain(PACKAGE, LOCALEDIR);
 #endif
 
-	cfg_init_defaults(cfg);
+	if (cfg_init_defaults(cfg) != CFG_SUCCESS) {
+		cfg_free(cfg);
+		return NULL;
+	}
 
 	return cfg;
 }
